@@ -131,6 +131,12 @@ def run(ck):
                         else:
                             rho = agg.get_DensityMatrix(condition_type=cond, relaxation_theory_limit=limit, temperature=T)
                             d_site = numpy.array(rho.data).copy()
+                            # the copy the aggregate keeps and hands out on a request without a condition is that state
+                            kept = numpy.array(agg.get_DensityMatrix().data).copy()
+                            if kept.shape != d_site.shape or numpy.abs(kept - d_site).max() > 1e-12:
+                                ck.fail("kept-copy:%s:%s" % (cond, limit), "get_DensityMatrix() without a condition does not hand out the state "
+                                        "calculated by the preceding request", inp,
+                                        float(numpy.abs(kept - d_site).max()) if kept.shape == d_site.shape else "shape")
                             with eigenbasis_of(H):
                                 d_in = numpy.array(rho.data).copy()
                     except Exception as e:
